@@ -142,6 +142,41 @@ func (x *exec) useRealReconciler() {
 	x.reconcile = x.reconcileReal
 }
 
+// reconcileStale reconciles a revision whose desired state the package manager has just changed,
+// through a cache frozen before that change. Judged by the post-write invariants (with the
+// revision's TRUE, inactive role) - an inactive revision creates nothing and controls nothing.
+func (x *exec) reconcileStale(revName string, rv int64) {
+	ri := x.revs[revName]
+	if _, ok := x.real.cache.m[revName]; !ok {
+		x.real.cache.m[revName] = packageYAML(x.kind.Kind, ri.Specs, ri.Content)
+	}
+	x.staleRevRV = rv
+	x.mon.cur = &opCtx{Op: "reconcile-from-stale-cache", RevName: revName, RevUID: ri.UID, PkgUID: x.pkgUID, Control: false}
+	x.cl.ResetCalls()
+	from := x.w.LogLen()
+	var err error
+	perr := kit.Try(func() {
+		_, err = x.real.rec.Reconcile(context.Background(), reconcile.Request{NamespacedName: types.NamespacedName{Name: revName}})
+	})
+	x.mon.cur = nil
+	x.staleRevRV = 0
+	log := x.w.Log(from)
+	x.ops = append(x.ops, fmt.Sprintf("Reconcile(%s) from a cache that still shows it Active -> err=%v", revName, err))
+	x.count("real_reconciles_stale_revision_cache", 1)
+	if perr != nil {
+		x.c.Violate("panic-in-reconcile", x.caseName, perr.Error(), x.witness(log))
+		return
+	}
+	for i := range log {
+		e := &log[i]
+		if e.Actor == actorRev && e.IsWrite() && !e.DryRun && e.Changed && isPkgObjKind(e.Key) {
+			x.c.Violate("deactivated-revision-wrote-from-stale-cache", x.caseName, fmt.Sprintf("%s is Inactive in the store; reconciled from a cache that still shows it Active it wrote: %s", revName, e.Short()), x.witness(log))
+			break
+		}
+	}
+	x.report(log)
+}
+
 // reconcileReal runs one real reconcile of the named revision and applies the same oracles as
 // the establisher-level driver, from the reconcile's write log.
 func (x *exec) reconcileReal(revName string) error {
